@@ -34,6 +34,17 @@ Definition zimg : mat := fun _ _ => 0.
 
 Definition inrect (y0 y1 x0 x1 y x : Z) : bool := (y0 <=? y) && (y <? y1) && (x0 <=? x) && (x <? x1).
 
+(* the character-cell layer: VideoBuffer._dbcs_text, what get_chars(as_type=unicode) returns and what the
+   VIDEO_UPDATE signal carries (a matrix of unicode cells; the trail cell of a fullwidth character is u'').
+   A cell is an abstract code; `blank` is u' '.  Rows and columns count from 1. *)
+Definition tmat := Z -> Z -> Z.
+Definition blank : Z := 32.
+Definition tblank : tmat := fun _ _ => blank.
+Definition incells (r0 r1 c0 c1 r col : Z) : bool := (r0 <=? r) && (r <=? r1) && (c0 <=? col) && (col <=? c1).
+(* list-slice assignment on rows r0..r1, columns c0..c1 (inclusive, 1-based) *)
+Definition tset (t : tmat) (r0 r1 c0 c1 : Z) (img : tmat) : tmat :=
+  fun r col => if incells r0 r1 c0 c1 r col then img r col else t r col.
+
 (* ByteMatrix.__setitem__ with slices [y0:y1, x0:x1] (non-negative bounds): the slices clip to the matrix *)
 Definition mset (c : cfg) (m : mat) (y0 y1 x0 x1 : Z) (img : mat) : mat :=
   fun y x => if inrect y0 y1 x0 x1 y x && inrect 0 (PH c) 0 (PW c) y x then img y x else m y x.
@@ -47,7 +58,8 @@ Definition mmove (c : cfg) (m : mat) (sy0 sy1 sx0 sx1 ty0 tx0 : Z) : mat :=
 (* signals and the events recorded by the harness *)
 Inductive signal :=
 | SSetMode (ph pw th tw : Z)
-| SUpdate (y0 x0 h w : Z) (data : mat)          (* sprite: data i j for 0 <= i < h, 0 <= j < w *)
+| SUpdate (top left nr nc : Z) (tdata : tmat) (y0 x0 h w : Z) (data : mat)
+    (* text rows top.., columns left..: tdata i j for 0 <= i < nr, 0 <= j < nc; sprite: data i j, 0 <= i < h, 0 <= j < w *)
 | SClear (back start stop : Z)
 | SScroll (dir from to back : Z).
 
@@ -67,12 +79,14 @@ Fixpoint sigs (evs : list event) : list signal :=
 
 (* ------------------------------------------------------------------------------------------------ *)
 (* one page = one VideoBuffer *)
-Record page := mkPage { px : mat; visible : bool; locked : bool; dirty : list (Z * (Z * Z)) }.
+Record page := mkPage { px : mat; txt : tmat; visible : bool; locked : bool; dirty : list (Z * (Z * Z)) }.
 
-Definition set_px (pg : page) (m : mat) : page := mkPage m (visible pg) (locked pg) (dirty pg).
-Definition set_visible_flag (pg : page) (b : bool) : page := mkPage (px pg) b (locked pg) (dirty pg).
-Definition set_locked (pg : page) (b : bool) : page := mkPage (px pg) (visible pg) b (dirty pg).
-Definition set_dirty (pg : page) (d : list (Z * (Z * Z))) : page := mkPage (px pg) (visible pg) (locked pg) d.
+Definition set_px (pg : page) (m : mat) : page := mkPage m (txt pg) (visible pg) (locked pg) (dirty pg).
+Definition set_txt (pg : page) (t : tmat) : page := mkPage (px pg) t (visible pg) (locked pg) (dirty pg).
+Definition set_visible_flag (pg : page) (b : bool) : page := mkPage (px pg) (txt pg) b (locked pg) (dirty pg).
+Definition set_locked (pg : page) (b : bool) : page := mkPage (px pg) (txt pg) (visible pg) b (dirty pg).
+Definition set_dirty (pg : page) (d : list (Z * (Z * Z))) : page :=
+  mkPage (px pg) (txt pg) (visible pg) (locked pg) d.
 
 Definition pos (c : cfg) (row col : Z) : Z * Z := vb_text_to_pixel_pos (TW c) (TH c) (fw c) (fh c) row col.
 Definition area (c : cfg) (r0 c0 r1 c1 : Z) : Z * Z * Z * Z :=
@@ -88,7 +102,11 @@ Definition submit (c : cfg) (pg : page) (top left bottom right : Z) : list event
     let h := Z.max 0 (Z.min y1 (PH c) - y0) in
     let w := Z.max 0 (Z.min x1 (PW c) - x0) in
     let m := px pg in
-    [ESig (SUpdate y0 x0 h w (fun i j => m (y0 + i) (x0 + j)))]
+    (* text = [_row[left-1:right] for _row in self._dbcs_text[top-1:bottom]] (list slices clip) *)
+    let nr := Z.max 0 (Z.min bottom (TH c) - (top - 1)) in
+    let nc := Z.max 0 (Z.min right (TW c) - (left - 1)) in
+    let t := txt pg in
+    [ESig (SUpdate top left nr nc (fun i j => t (top + i) (left + j)) y0 x0 h w (fun i j => m (y0 + i) (x0 + j)))]
   else [].
 
 Definition resubmit (c : cfg) (pg : page) : list event := submit c pg 1 1 (TH c) (TW c).
@@ -108,9 +126,13 @@ Fixpoint dirty_add (row s e : Z) (d : list (Z * (Z * Z))) : list (Z * (Z * Z)) :
       else (r, (l, rr)) :: dirty_add row s e d'
   end.
 
+(* _refresh_dbcs(row) inside force_submit: the unicode row is rebuilt from the byte row; the cells that change
+   lie inside the range (s, e) it returns (monitored by the harness) *)
+Definition refresh_row (pg : page) (r s e : Z) (timg : tmat) : page := set_txt pg (tset (txt pg) r r s e timg).
+
 (* force_submit: for each dirty row in order: _refresh_dbcs (result taken from ws), _draw_text, _submit *)
-Fixpoint fs_loop (c : cfg) (p : nat) (pg : page) (d : list (Z * (Z * Z))) (ws : list (Z * Z * Z)) (img : mat)
-  : page * list event :=
+Fixpoint fs_loop (c : cfg) (p : nat) (pg : page) (d : list (Z * (Z * Z))) (ws : list (Z * Z * Z)) (timg : tmat)
+  (img : mat) : page * list event :=
   match d with
   | [] => (pg, match ws with [] => [] | _ => [EBad 1] end)
   | (r, (l, rr)) :: d' =>
@@ -120,58 +142,73 @@ Fixpoint fs_loop (c : cfg) (p : nat) (pg : page) (d : list (Z * (Z * Z))) (ws : 
             if (r2 =? r) && (s2 <=? l) && (rr <=? e2) then (s2, e2, ws', []) else (l, rr, ws', [EBad 2])
         | [] => (l, rr, [], [EBad 3])
         end in
-      let '(pg1, ev1) := draw c p pg r s e img in
+      let pg0 := refresh_row pg r s e timg in
+      let '(pg1, ev1) := draw c p pg0 r s e img in
       let ev2 := submit c pg1 r s r e in
-      let '(pg2, ev3) := fs_loop c p pg1 d' ws' img in
+      let '(pg2, ev3) := fs_loop c p pg1 d' ws' timg img in
       (pg2, bad ++ ev1 ++ ev2 ++ ev3)
   end.
 
-Definition force_submit (c : cfg) (p : nat) (pg : page) (ws : list (Z * Z * Z)) (img : mat) : page * list event :=
-  let '(pg1, ev) := fs_loop c p pg (dirty pg) ws img in (set_dirty pg1 [], ev).
+Definition force_submit (c : cfg) (p : nat) (pg : page) (ws : list (Z * Z * Z)) (timg : tmat) (img : mat)
+  : page * list event :=
+  let '(pg1, ev) := fs_loop c p pg (dirty pg) ws timg img in (set_dirty pg1 [], ev).
 
 (* _PixelAccess.__setitem__: store, then _update_pixels -> text area -> _submit *)
 Definition pix_set (c : cfg) (p : nat) (pg : page) (y0 y1 x0 x1 v : Z) (img : mat) : page * list event :=
-  let pg1 := set_px pg (mset c (px pg) y0 y1 x0 x1 img) in
   let '(row0, col0, row1, col1) := text_area c x0 y0 (x1 - 1) (y1 - 1) in
+  (* _clear_text_area (branch without DBCS: pixel writes happen in graphics modes only): cells become blank *)
+  let pg1 := set_txt (set_px pg (mset c (px pg) y0 y1 x0 x1 img)) (tset (txt pg) row0 row1 col0 col1 tblank) in
   (pg1, EWrite p y0 y1 x0 x1 v :: submit c pg1 row0 col0 row1 col1).
 
-Definition update (c : cfg) (p : nat) (pg : page) (row s e : Z) (ws : list (Z * Z * Z)) (img : mat)
+Definition update (c : cfg) (p : nat) (pg : page) (row s e : Z) (ws : list (Z * Z * Z)) (timg : tmat) (img : mat)
   : page * list event :=
   let pg1 := set_dirty pg (dirty_add row s e (dirty pg)) in
-  if locked pg1 then (pg1, match ws with [] => [] | _ => [EBad 4] end) else force_submit c p pg1 ws img.
+  if locked pg1 then (pg1, match ws with [] => [] | _ => [EBad 4] end) else force_submit c p pg1 ws timg img.
 
-Definition unlock (c : cfg) (p : nat) (pg : page) (ws : list (Z * Z * Z)) (img : mat) : page * list event :=
-  force_submit c p (set_locked pg false) ws img.
-
-Definition clear_rows (c : cfg) (p : nat) (pg : page) (start stop back : Z) (ws : list (Z * Z * Z)) (img : mat)
+Definition unlock (c : cfg) (p : nat) (pg : page) (ws : list (Z * Z * Z)) (timg : tmat) (img : mat)
   : page * list event :=
+  force_submit c p (set_locked pg false) ws timg img.
+
+Definition clear_rows (c : cfg) (p : nat) (pg : page) (start stop back : Z) (ws : list (Z * Z * Z)) (timg : tmat)
+  (img : mat) : page * list event :=
   let '(x0, y0, x1, y1) := area c start 1 stop (TW c) in
-  let pg1 := set_px pg (mset c (px pg) y0 (y1 + 1) x0 (x1 + 1) (fun _ _ => back)) in
-  let '(pg2, ev) := force_submit c p pg1 ws img in
+  let pg1 := set_txt (set_px pg (mset c (px pg) y0 (y1 + 1) x0 (x1 + 1) (fun _ _ => back)))
+                     (tset (txt pg) start stop 1 (TW c) tblank) in
+  let '(pg2, ev) := force_submit c p pg1 ws timg img in
   (pg2, EWrite p y0 (y1 + 1) x0 (x1 + 1) back :: ev
         ++ (if visible pg2 then [ESig (SClear back start stop)] else [])).
 
-Definition scroll_up (c : cfg) (p : nat) (pg : page) (from to back : Z) (ws : list (Z * Z * Z)) (img : mat)
-  : page * list event :=
-  let '(pg1, ev) := force_submit c p pg ws img in
+Definition scroll_up (c : cfg) (p : nat) (pg : page) (from to back : Z) (ws : list (Z * Z * Z)) (timg : tmat)
+  (img : mat) : page * list event :=
+  let '(pg1, ev) := force_submit c p pg ws timg img in
   let sg := if visible pg1 then [ESig (SScroll (-1) from to back)] else [] in
   let '(sx0, sy0, sx1, sy1) := area c (from + 1) 1 to (TW c) in
   let '(tx0, ty0) := pos c from 1 in
   let m1 := mmove c (px pg1) sy0 (sy1 + 1) sx0 (sx1 + 1) ty0 tx0 in
   let '(x0, y0, x1, y1) := area c to 1 to (TW c) in
   let m2 := mset c m1 y0 (y1 + 1) x0 (x1 + 1) (fun _ _ => back) in
-  (set_px pg1 m2, ev ++ sg ++ [EMove p sy0 (sy1 + 1) sx0 (sx1 + 1) ty0 tx0; EWrite p y0 (y1 + 1) x0 (x1 + 1) back]).
+  (* _dbcs_text[from-1:to-1] = _dbcs_text[from:to]; _dbcs_text[to-1] = blanks *)
+  let t0 := txt pg1 in
+  let t1 := tset t0 from (to - 1) 1 (TW c) (fun r col => t0 (r + 1) col) in
+  let t2 := tset t1 to to 1 (TW c) tblank in
+  (set_txt (set_px pg1 m2) t2,
+   ev ++ sg ++ [EMove p sy0 (sy1 + 1) sx0 (sx1 + 1) ty0 tx0; EWrite p y0 (y1 + 1) x0 (x1 + 1) back]).
 
-Definition scroll_down (c : cfg) (p : nat) (pg : page) (from to back : Z) (ws : list (Z * Z * Z)) (img : mat)
-  : page * list event :=
-  let '(pg1, ev) := force_submit c p pg ws img in
+Definition scroll_down (c : cfg) (p : nat) (pg : page) (from to back : Z) (ws : list (Z * Z * Z)) (timg : tmat)
+  (img : mat) : page * list event :=
+  let '(pg1, ev) := force_submit c p pg ws timg img in
   let sg := if visible pg1 then [ESig (SScroll 1 from to back)] else [] in
   let '(sx0, sy0, sx1, sy1) := area c from 1 (to - 1) (TW c) in
   let '(tx0, ty0) := pos c (from + 1) 1 in
   let m1 := mmove c (px pg1) sy0 (sy1 + 1) sx0 (sx1 + 1) ty0 tx0 in
   let '(x0, y0, x1, y1) := area c from 1 from (TW c) in
   let m2 := mset c m1 y0 (y1 + 1) x0 (x1 + 1) (fun _ _ => back) in
-  (set_px pg1 m2, ev ++ sg ++ [EMove p sy0 (sy1 + 1) sx0 (sx1 + 1) ty0 tx0; EWrite p y0 (y1 + 1) x0 (x1 + 1) back]).
+  (* _dbcs_text[from:to] = _dbcs_text[from-1:to-1]; _dbcs_text[from-1] = blanks *)
+  let t0 := txt pg1 in
+  let t1 := tset t0 (from + 1) to 1 (TW c) (fun r col => t0 (r - 1) col) in
+  let t2 := tset t1 from from 1 (TW c) tblank in
+  (set_txt (set_px pg1 m2) t2,
+   ev ++ sg ++ [EMove p sy0 (sy1 + 1) sx0 (sx1 + 1) ty0 tx0; EWrite p y0 (y1 + 1) x0 (x1 + 1) back]).
 
 (* VideoBuffer.set_visible *)
 Definition set_vis (c : cfg) (pg : page) (b : bool) : page * list event :=
@@ -184,12 +221,12 @@ Record st := mkSt { scfg : cfg; pages : list page; vis : option nat }.
 
 Inductive op :=
 | OPixSet (p : nat) (y0 y1 x0 x1 v : Z) (img : mat)
-| OUpdate (p : nat) (row s e : Z) (ws : list (Z * Z * Z)) (img : mat)
+| OUpdate (p : nat) (row s e : Z) (ws : list (Z * Z * Z)) (timg : tmat) (img : mat)
 | OLock (p : nat)
-| OUnlock (p : nat) (ws : list (Z * Z * Z)) (img : mat)
-| OClearRows (p : nat) (start stop back : Z) (ws : list (Z * Z * Z)) (img : mat)
-| OScrollUp (p : nat) (from to back : Z) (ws : list (Z * Z * Z)) (img : mat)
-| OScrollDown (p : nat) (from to back : Z) (ws : list (Z * Z * Z)) (img : mat)
+| OUnlock (p : nat) (ws : list (Z * Z * Z)) (timg : tmat) (img : mat)
+| OClearRows (p : nat) (start stop back : Z) (ws : list (Z * Z * Z)) (timg : tmat) (img : mat)
+| OScrollUp (p : nat) (from to back : Z) (ws : list (Z * Z * Z)) (timg : tmat) (img : mat)
+| OScrollDown (p : nat) (from to back : Z) (ws : list (Z * Z * Z)) (timg : tmat) (img : mat)
 | OCopyFrom (dst src : nat)
 | OSetPage (v : nat)
 | OSetMode (c : cfg) (n : nat)
@@ -202,7 +239,7 @@ Fixpoint upd_nth {A} (n : nat) (f : A -> A) (l : list A) : list A :=
   | a :: r, S k => a :: upd_nth k f r
   end.
 
-Definition blank_page : page := mkPage zimg false false [].
+Definition blank_page : page := mkPage zimg tblank false false [].
 Definition default_page : page := blank_page.
 Definition get_page (s : st) (p : nat) : page := nth p (pages s) default_page.
 Definition put_page (s : st) (p : nat) (pg : page) : st := mkSt (scfg s) (upd_nth p (fun _ => pg) (pages s)) (vis s).
@@ -220,17 +257,18 @@ Definition step (s : st) (o : op) : st * list event :=
   let c := scfg s in
   match o with
   | OPixSet p y0 y1 x0 x1 v img => on_page s p (fun pg => pix_set c p pg y0 y1 x0 x1 v img)
-  | OUpdate p row a b ws img => on_page s p (fun pg => update c p pg row a b ws img)
+  | OUpdate p row a b ws timg img => on_page s p (fun pg => update c p pg row a b ws timg img)
   | OLock p => on_page s p (fun pg => (set_locked pg true, []))
-  | OUnlock p ws img => on_page s p (fun pg => unlock c p pg ws img)
-  | OClearRows p a b back ws img => on_page s p (fun pg => clear_rows c p pg a b back ws img)
-  | OScrollUp p a b back ws img => on_page s p (fun pg => scroll_up c p pg a b back ws img)
-  | OScrollDown p a b back ws img => on_page s p (fun pg => scroll_down c p pg a b back ws img)
+  | OUnlock p ws timg img => on_page s p (fun pg => unlock c p pg ws timg img)
+  | OClearRows p a b back ws timg img => on_page s p (fun pg => clear_rows c p pg a b back ws timg img)
+  | OScrollUp p a b back ws timg img => on_page s p (fun pg => scroll_up c p pg a b back ws timg img)
+  | OScrollDown p a b back ws timg img => on_page s p (fun pg => scroll_down c p pg a b back ws timg img)
   | OCopyFrom dst src =>
       (* copy_from: self._pixels[:, :] = src._pixels ; resubmit *)
       let m := px (get_page s src) in
+      let t := txt (get_page s src) in
       on_page s dst (fun pg =>
-        let pg1 := set_px pg (mset c (px pg) 0 (PH c) 0 (PW c) m) in
+        let pg1 := set_txt (set_px pg (mset c (px pg) 0 (PH c) 0 (PW c) m)) t in
         (pg1, EWrite dst 0 (PH c) 0 (PW c) (-1) :: resubmit c pg1))
   | OSetPage v =>
       (* Display.set_page: pages[vpagenum].set_visible(False); pages[new].set_visible(True) *)
@@ -269,13 +307,15 @@ Definition op_okb (s : st) (o : op) : bool :=
   | OPixSet p y0 y1 x0 x1 _ _ =>
       (* an empty rectangle is what GraphicsViewPort hands over for a point outside the viewport *)
       has_page s p && (0 <=? y0) && (y0 <=? y1) && (y1 <=? PH c) && (0 <=? x0) && (x0 <=? x1) && (x1 <=? PW c)
-  | OUpdate p row a b ws _ => has_page s p && in_rows c row row && in_cols c a b && ws_okb c ws
+  | OUpdate p row a b ws _ _ => has_page s p && in_rows c row row && in_cols c a b && ws_okb c ws
   | OLock p => has_page s p && negb (locked (get_page s p))
-  | OUnlock p ws _ => has_page s p && locked (get_page s p) && ws_okb c ws
-  | OClearRows p a b _ ws _ =>
-      has_page s p && in_rows c a b && ws_okb c ws && no_dirty_in (dirty (get_page s p)) a b
-  | OScrollUp p a b _ ws _ => has_page s p && in_rows c a b && (b * fh c <=? PH c) && ws_okb c ws
-  | OScrollDown p a b _ ws _ =>
+  | OUnlock p ws _ _ => has_page s p && locked (get_page s p) && ws_okb c ws
+  | OClearRows p a b _ ws _ _ =>
+      (* clear_rows is never called inside collect_updates() (checked on the call graph of textscreen.py by
+         gen_signals); with the state invariant `unlocked -> no dirty rows` this gives: no pending dirty text row *)
+      has_page s p && in_rows c a b && ws_okb c ws && negb (locked (get_page s p))
+  | OScrollUp p a b _ ws _ _ => has_page s p && in_rows c a b && (b * fh c <=? PH c) && ws_okb c ws
+  | OScrollDown p a b _ ws _ _ =>
       (* from = to + 1 (nothing moves, row `from` is blanked) is what textscreen.line_feed asks for when the
          cursor sits below the scroll area (LOCATE 25,1 with KEY OFF, then Ctrl+J) *)
       has_page s p && (1 <=? a) && (a <=? b + 1) && (a <=? TH c) && (b <=? TH c) && (b * fh c <=? PH c)
@@ -293,10 +333,38 @@ Fixpoint ops_okb (s : st) (ops : list op) : bool :=
   end.
 
 (* ------------------------------------------------------------------------------------------------ *)
-(* the reference consumer: interface/video_sdl2.py set_mode / update / clear_rows / scroll *)
-Record cons := mkCons { cPH : Z; cPW : Z; cTH : Z; cTW : Z; cfh : Z; cfw : Z; canvas : mat }.
+(* callers: TextScreen's scroll area (class ScrollArea, view_print_ in display/textscreen.py) - the source of
+   the row arguments of clear_view / scroll / scroll_down.  Hand model; gen_signals checks (fail closed) that
+   set/unset/init_mode/view_print_ and the call sites still have exactly this shape. *)
+Record sarea := mkSa { sa_top : Z; sa_bottom : Z; sa_height : Z }.
 
-Definition set_canvas (k : cons) (m : mat) : cons := mkCons (cPH k) (cPW k) (cTH k) (cTW k) (cfh k) (cfw k) m.
+Inductive sa_op :=
+| SaUnset                                  (* VIEW PRINT *)
+| SaViewPrint (start stop : Z) (tandy_nobar : bool)   (* VIEW PRINT start TO stop; max_line = 25 iff tandy/pcjr without key bar *)
+| SaInitMode (h : Z).                      (* mode switch *)
+
+Definition sa_unset (a : sarea) : sarea := mkSa 1 (sa_height a - 1) (sa_height a).
+
+Definition sa_step (a : sarea) (o : sa_op) : sarea :=
+  match o with
+  | SaUnset => sa_unset a
+  | SaViewPrint start stop tandy_nobar =>
+      let max_line := if tandy_nobar then 25 else 24 in
+      (* error.range_check(1, max_line, start, stop); error.throw_if(stop < start): on error nothing changes *)
+      if (1 <=? start) && (start <=? max_line) && (1 <=? stop) && (stop <=? max_line) && (start <=? stop)
+      then mkSa start stop (sa_height a) else a
+  | SaInitMode h =>
+      if sa_bottom a =? h then mkSa 1 h h else sa_unset (mkSa (sa_top a) (sa_bottom a) h)
+  end.
+
+(* ------------------------------------------------------------------------------------------------ *)
+(* the reference consumer: interface/video_sdl2.py set_mode / update / clear_rows / scroll *)
+Record cons := mkCons { cPH : Z; cPW : Z; cTH : Z; cTW : Z; cfh : Z; cfw : Z; canvas : mat; ctext : tmat }.
+
+Definition set_canvas (k : cons) (m : mat) : cons :=
+  mkCons (cPH k) (cPW k) (cTH k) (cTW k) (cfh k) (cfw k) m (ctext k).
+Definition set_ctext (k : cons) (t : tmat) : cons :=
+  mkCons (cPH k) (cPW k) (cTH k) (cTW k) (cfh k) (cfw k) (canvas k) t.
 
 (* a slice assignment on the canvas clips to the canvas *)
 Definition cset (k : cons) (y0 y1 x0 x1 : Z) (img : mat) : mat :=
@@ -306,29 +374,35 @@ Definition consume1 (k : cons) (s : signal) : cons :=
   match s with
   | SSetMode ph pw th tw =>
       (* a new zeroed surface; font size derived from the four numbers *)
-      let '(fh_, fw_) := sdl_font_size 0 0 ph pw th tw in mkCons ph pw th tw fh_ fw_ zimg
-  | SUpdate y0 x0 h w data =>
+      let '(fh_, fw_) := sdl_font_size 0 0 ph pw th tw in mkCons ph pw th tw fh_ fw_ zimg tblank
+  | SUpdate tr tc nr nc tdata y0 x0 h w data =>
       (* clip the sprite to the canvas, blit at (y0, x0) *)
       let clip := (y0 + h >? cPH k) || (x0 + w >? cPW k) in
       let h' := if clip then Z.min h (cPH k - y0) else h in
       let w' := if clip then Z.min w (cPW k - x0) else w in
-      set_canvas k (cset k y0 (y0 + h') x0 (x0 + w') (fun y x => data (y - y0) (x - x0)))
+      (* text consumers store the unicode cells they are sent at (top, left) *)
+      let t := tset (ctext k) tr (tr + nr - 1) tc (tc + nc - 1) (fun r col => tdata (r - tr) (col - tc)) in
+      set_ctext (set_canvas k (cset k y0 (y0 + h') x0 (x0 + w') (fun y x => data (y - y0) (x - x0)))) t
   | SClear back start stop =>
-      set_canvas k (cset k ((start - 1) * cfh k) (stop * cfh k) 0 (cPW k) (fun _ _ => back))
+      set_ctext (set_canvas k (cset k ((start - 1) * cfh k) (stop * cfh k) 0 (cPW k) (fun _ _ => back)))
+                (tset (ctext k) start stop 1 (cTW k) tblank)
   | SScroll dir from to back =>
       let '(hi0, hi1, lo0, lo1) := sdl_scroll_bands (cfh k) from to in
       let old := canvas k in
+      let t0 := ctext k in
       if dir =? -1 then
         let k1 := set_canvas k (cset k hi0 hi1 0 (cPW k) (fun y x => old (y - hi0 + lo0) x)) in
-        set_canvas k1 (cset k1 hi1 lo1 0 (cPW k) (fun _ _ => back))
+        let t1 := tset t0 from (to - 1) 1 (cTW k) (fun r col => t0 (r + 1) col) in
+        set_ctext (set_canvas k1 (cset k1 hi1 lo1 0 (cPW k) (fun _ _ => back))) (tset t1 to to 1 (cTW k) tblank)
       else
         let k1 := set_canvas k (cset k lo0 lo1 0 (cPW k) (fun y x => old (y - lo0 + hi0) x)) in
-        set_canvas k1 (cset k1 hi0 lo0 0 (cPW k) (fun _ _ => back))
+        let t1 := tset t0 (from + 1) to 1 (cTW k) (fun r col => t0 (r - 1) col) in
+        set_ctext (set_canvas k1 (cset k1 hi0 lo0 0 (cPW k) (fun _ _ => back))) (tset t1 from from 1 (cTW k) tblank)
   end.
 
 Definition consume (k : cons) (l : list signal) : cons := fold_left consume1 l k.
 
-Definition cons0 : cons := mkCons 0 0 0 0 0 0 zimg.
+Definition cons0 : cons := mkCons 0 0 0 0 0 0 zimg tblank.
 
 (* ------------------------------------------------------------------------------------------------ *)
 (* encodings for the correspondence harness *)
@@ -338,7 +412,7 @@ Definition enc_event (e : event) : list Z :=
   match e with
   | EWrite p y0 y1 x0 x1 v => [1; zn p; y0; y1; x0; x1; v]
   | EMove p a b c d e f => [2; zn p; a; b; c; d; e; f]
-  | ESig (SUpdate y0 x0 h w _) => [3; 1; y0; x0; h; w]
+  | ESig (SUpdate tr tc nr nc _ y0 x0 h w _) => [3; 1; y0; x0; h; w; tr; tc; nr; nc]
   | ESig (SClear back a b) => [3; 2; back; a; b]
   | ESig (SScroll d a b back) => [3; 3; d; a; b; back]
   | ESig (SSetMode a b c d) => [3; 4; a; b; c; d]
@@ -379,3 +453,7 @@ Fixpoint zrange (a : Z) (n : nat) : list Z := match n with O => [] | S k => a ::
 
 Definition sample (m : mat) (h w : nat) : list (list Z) :=
   map (fun y => map (fun x => m y x) (zrange 0 w)) (zrange 0 h).
+Definition tsample (t : tmat) (h w : nat) : list (list Z) :=
+  map (fun r => map (fun col => t r col) (zrange 1 w)) (zrange 1 h).
+Definition visible_txt (s : st) : option tmat :=
+  match vis s with Some v => Some (txt (get_page s v)) | None => None end.
